@@ -10,7 +10,8 @@ Modelled after (src/barril/units/_quantity.py, unit_database.py), function by fu
 (which conversions fail), `_DoOperationWithSameQuantity`, `_DoOperationResultingInNewQuantity`.
 
 Python objects with identity are modelled explicitly:
-* a `[unit, exp]` list / `(unit, exp)` tuple is a `Cell` in an append-only `Heap`, named by its index;
+* a `[unit, exp]` list / `(unit, exp)` tuple is a `Cell` in an append-only `Heap`, named by its index
+  (requests may carry tuples; a `Quantity` copies them into lists of its own when it is created);
   an `OrderedDict` category → cell is a `Map` of references; the two arithmetic routines work on
   copies (`copyMap` = `copy.deepcopy` / `GetCategoryToUnitAndExpsCopy`) and WRITE into cells
   (`List.set`) exactly where the Python assigns `unit_exp[0] = …` / `unit_exp1[1] = …`;
@@ -231,14 +232,20 @@ def newSimple (db : Db) (s : State) (cat unit : Sym) (cap : Option Sym) : State 
         let r := s.push (s.heap ++ [⟨u, 1, false⟩]) ⟨[(cat, s.heap.length)], capStr cap, false⟩
         (r.1, .ok r.2)
 
+/-- `OrderedDict((cat, list(unit_and_exp)) for …)`: the quantity's own copy of the composing map;
+every cell becomes a `[unit, exp]` list, whatever the caller passed -/
+def thaw (items : List (Sym × Cell)) : List (Sym × Cell) :=
+  items.map (fun kc => (kc.1, ⟨kc.2.unit, kc.2.exp, false⟩))
+
 /-- derived branch of `Quantity(odict, None, caption)`; a plain `dict` falls through to the simple
-branch and raises `TypeError`; categories are looked up, units are NOT checked -/
+branch and raises `TypeError`; categories are looked up, units are NOT checked; the mapping is
+copied into fresh list cells (`thaw`) -/
 def newDerived (db : Db) (s : State) (items : List (Sym × Cell)) (od : Bool) (cap : Option Sym) :
     State × Except ErrKind Nat :=
   if !od then (s, .error .type)
   else if items.any (fun kc => (db.catByName kc.1).isNone) then (s, .error .units)
   else
-    let hm := allocMany s.heap items
+    let hm := allocMany s.heap (thaw items)
     let r := s.push hm.1 ⟨hm.2, capStr cap, true⟩
     (r.1, .ok r.2)
 
